@@ -16,13 +16,13 @@ pub const ID: &str = "C13";
 pub const FAMS: [&str; 1] = ["render"];
 
 pub fn jobs(ctx: &Ctx) -> Vec<RJob> {
-    let versions: Vec<usize> = ctx.tier.pick(vec![1, 2, 7, 10, 20, 40], (1..=40).collect());
+    let versions: Vec<usize> = ctx.tier.pick(vec![1, 2, 3, 5, 7, 10, 14, 20, 27, 40], (1..=40).collect());
     let mut out = Vec::new();
     let mut k = 0u64;
     let reps = ctx.tier.pick(1, ctx.scale(5));
     for &v in &versions {
         for shape in 0..6usize {
-            for (mi, &margin) in [0usize, 1, 4].iter().enumerate() {
+            for (mi, &margin) in [0usize, 1, 4, 2 + (v * 7 + shape) % 7].iter().enumerate() {
                 for fit in 0..4usize {
                     for _ in 0..reps {
                         k += 1;
